@@ -352,3 +352,83 @@ example :
       = ["field-interface", "ord-collection"] := by decide +kernel
 
 end Pydjinni.Front
+
+namespace Pydjinni.Front
+
+/-! ### the visitor misses no reference: collected references = all `dataType` nodes at any depth -/
+
+@[simp] theorem Collected.refs_append (a b : Collected) : (a ++ b).refs = a.refs ++ b.refs := rfl
+@[simp] theorem Collected.refs_empty : ({} : Collected).refs = [] := rfl
+
+/-- the reference site the visitor records for a `dataType` node -/
+def siteOf (e : Env) (ns : List String) : TypeRef → Option RefSite
+  | .data name args _ pos => some { name := name, ns := ns, nargs := args.length, file := e.file, pos := pos }
+  | .fn .. => none
+
+mutual
+theorem refs_walkT (e : Env) (ns : List String) (t : TypeRef) (r : RefSite) :
+    r ∈ (walkT e ns t).refs ↔ r ∈ (dataNodesT t).filterMap (siteOf e ns) := by
+  cases t with
+  | data name args opt pos =>
+    simp only [walkT, Collected.refs_append, dataNodesT, List.filterMap_cons, siteOf, List.mem_append, List.mem_cons,
+      List.mem_singleton, List.not_mem_nil, or_false]
+    rw [refs_walkTs e ns args r]
+    exact Or.comm
+  | fn sig pos =>
+    simp only [walkT, dataNodesT]
+    exact refs_walkF e ns sig r
+theorem refs_walkTs (e : Env) (ns : List String) (ts : List TypeRef) (r : RefSite) :
+    r ∈ (walkTs e ns ts).refs ↔ r ∈ (dataNodesTs ts).filterMap (siteOf e ns) := by
+  cases ts with
+  | nil => simp [walkTs, dataNodesTs]
+  | cons t ts =>
+    simp only [walkTs, Collected.refs_append, dataNodesTs, List.filterMap_append, List.mem_append]
+    rw [refs_walkT e ns t r, refs_walkTs e ns ts r]
+theorem refs_walkF (e : Env) (ns : List String) (sig : FnSig) (r : RefSite) :
+    r ∈ (walkF e ns sig).refs ↔ r ∈ (dataNodesF sig).filterMap (siteOf e ns) := by
+  cases sig with
+  | mk flags fpos params thr ret =>
+    have hrefs : (walkF e ns (.mk flags fpos params thr ret)).refs
+        = (walkOT e ns ret).refs ++ (walkPs e ns params).refs ++ (walkOTs e ns thr).refs := by
+      cases flags <;> simp [walkF]
+    rw [hrefs]
+    simp only [dataNodesF, List.filterMap_append, List.mem_append]
+    rw [refs_walkOT e ns ret r, refs_walkPs e ns params r, refs_walkOTs e ns thr r]
+    constructor
+    · rintro ((h | h) | h)
+      · exact Or.inr h
+      · exact Or.inl (Or.inl h)
+      · exact Or.inl (Or.inr h)
+    · rintro ((h | h) | h)
+      · exact Or.inl (Or.inr h)
+      · exact Or.inr h
+      · exact Or.inl (Or.inl h)
+theorem refs_walkPs (e : Env) (ns : List String) (ps : List Param) (r : RefSite) :
+    r ∈ (walkPs e ns ps).refs ↔ r ∈ (dataNodesPs ps).filterMap (siteOf e ns) := by
+  cases ps with
+  | nil => simp [walkPs, dataNodesPs]
+  | cons p ps =>
+    cases p with
+    | mk n t pos =>
+      simp only [walkPs, Collected.refs_append, dataNodesPs, List.filterMap_append, List.mem_append]
+      rw [refs_walkT e ns t r, refs_walkPs e ns ps r]
+theorem refs_walkOT (e : Env) (ns : List String) (o : Option TypeRef) (r : RefSite) :
+    r ∈ (walkOT e ns o).refs ↔ r ∈ (dataNodesOT o).filterMap (siteOf e ns) := by
+  cases o with
+  | none => simp [walkOT, dataNodesOT]
+  | some t => simp only [walkOT, dataNodesOT]; exact refs_walkT e ns t r
+theorem refs_walkOTs (e : Env) (ns : List String) (o : Option (List TypeRef)) (r : RefSite) :
+    r ∈ (walkOTs e ns o).refs ↔ r ∈ (dataNodesOTs o).filterMap (siteOf e ns) := by
+  cases o with
+  | none => simp [walkOTs, dataNodesOTs]
+  | some ts => simp only [walkOTs, dataNodesOTs]; exact refs_walkTs e ns ts r
+end
+
+/-- **No reference is missed**: the visitor records a reference site for every `dataType` node below a type
+    reference — generic arguments, inline function parameters, return types and `throws` lists, at any depth —
+    and for nothing else. -/
+theorem refs_walkT_complete (e : Env) (ns : List String) (t : TypeRef) (r : RefSite) :
+    r ∈ (walkT e ns t).refs ↔ ∃ n ∈ dataNodesT t, siteOf e ns n = some r := by
+  rw [refs_walkT, List.mem_filterMap]
+
+end Pydjinni.Front
